@@ -24,6 +24,8 @@ ANCHORS = ["QueryBuilder.get_sql", "QueryBuilder._from_sql", "Join.get_sql", "Qu
            "ContainsCriterion.get_sql", "QueryBuilder._select_sql", "QueryBuilder._where_sql", "QueryBuilder._group_sql",
            "QueryBuilder._having_sql", "QueryBuilder._orderby_sql"]
 WORKERS = {"quick": 16, "thorough": 16}
+# cases the check sets aside instead of judging, as a share of all cases (more than that makes a run inconclusive)
+CEILING_RATIOS = {"unbuildable": 0.05, "render_raises": 0.01}
 
 POSITIONS = ["from", "join", "in", "not-in", "negated-in", "comparison", "select-item", "select-item-aliased", "cte", "set-operand",
              "set-operand-right", "insert-select", "nested-from-from", "exists-like-function", "where-in-inside-and",
